@@ -198,7 +198,11 @@ class snapshot:  # pylint: disable=invalid-name
         # Find a contract checker
         contract_checker = icontract._checkers.find_checker(func=func)
 
-        if contract_checker is None:
+        # A contract checker without postconditions exists if only preconditions were defined on the function
+        # thus far. The function is expected to be decorated with at least one postcondition before the snapshot.
+        if contract_checker is None or not getattr(
+            contract_checker, "__postconditions__"
+        ):
             raise ValueError(
                 "You are decorating a function with a snapshot, but no postcondition was defined "
                 "on the function before."
